@@ -83,17 +83,22 @@ Print Assumptions C04_gen_form_names_one_to_one.
 (* the tuples of form names written inline in the code (extracted from the source of iter_DIE_children in
    compileunit.py and typeunit.py, DIE.get_DIE_from_attribute and DIE._translate_attr_value): the three copies of
    the unit-relative reference tuple agree, the section-relative form is DW_FORM_ref_addr, the index-form
-   tuples are the standard's strx* / addrx* forms.  The model's tests are these generated lists. *)
+   tuples are the standard's strx* / addrx* forms (compared as sets: reordering a tuple is harmless; same_names a b
+   = true gives forall n, membership in a = membership in b, Proofs/C04Forms.v same_names_mem).  The model's
+   tests are these generated lists. *)
 Theorem C04_gen_form_name_sets :
-  gen_die_ref_unit_forms = std_unit_ref_names /\ gen_cu_sibling_unit_forms = std_unit_ref_names /\
-  gen_tu_sibling_unit_forms = std_unit_ref_names /\
+  same_names gen_die_ref_unit_forms std_unit_ref_names = true /\
+  same_names gen_cu_sibling_unit_forms std_unit_ref_names = true /\
+  same_names gen_tu_sibling_unit_forms std_unit_ref_names = true /\
   gen_cu_sibling_addr_form = "DW_FORM_ref_addr" /\ gen_tu_sibling_addr_form = "DW_FORM_ref_addr" /\
   gen_die_ref_addr_pattern = "DW_FORM_ref_addr" /\ gen_die_ref_sig8_pattern = "DW_FORM_ref_sig8" /\
-  gen_die_ref_sup_forms = ["DW_FORM_ref_sup4"; "DW_FORM_ref_sup8"; "DW_FORM_GNU_ref_alt"] /\
-  gen_translate_addrx_forms = std_addrx_names /\ gen_translate_strx_forms = std_strx_names /\
-  gen_translate_chain = [["DW_FORM_strp"]; ["DW_FORM_line_strp"]; ["DW_FORM_GNU_strp_alt"; "DW_FORM_strp_sup"];
-                         ["DW_FORM_flag"]; ["DW_FORM_flag_present"]; std_addrx_names; std_strx_names;
-                         ["DW_FORM_loclistx"]; ["DW_FORM_rnglistx"]].
+  same_names gen_die_ref_sup_forms ["DW_FORM_ref_sup4"; "DW_FORM_ref_sup8"; "DW_FORM_GNU_ref_alt"] = true /\
+  same_names gen_translate_addrx_forms std_addrx_names = true /\
+  same_names gen_translate_strx_forms std_strx_names = true /\
+  snodup (concat gen_translate_chain) = true /\
+  same_names (concat gen_translate_chain)
+             (["DW_FORM_strp"; "DW_FORM_line_strp"; "DW_FORM_GNU_strp_alt"; "DW_FORM_strp_sup"; "DW_FORM_flag";
+               "DW_FORM_flag_present"; "DW_FORM_loclistx"; "DW_FORM_rnglistx"] ++ std_addrx_names ++ std_strx_names) = true.
 Proof. exact gen_form_name_sets. Qed.
 Print Assumptions C04_gen_form_name_sets.
 
